@@ -100,6 +100,8 @@ func plantKindsAndConstants(p *idl.Program) {
 		return []*idl.Field{{ID: 1, Name: "zqCode", Req: idl.ReqRequired, Type: idl.T("i32")}, {ID: 2, Name: "zqNote", Req: idl.ReqOptional, Type: idl.T("string")}, {ID: 3, Name: "zqTags", Type: idl.ListOf(idl.T("string"))}}
 	}
 	decls := []*idl.Decl{
+		{Enum: &idl.Enum{Name: "ZqColor", Values: []*idl.EnumValue{{Name: "ZQ_RED", Value: 0}, {Name: "ZQ_GREEN", Value: 1}, {Name: "ZQ_BLUE", Value: 2}}}},
+		{Enum: &idl.Enum{Name: "ZqLevel", Values: []*idl.EnumValue{{Name: "ZQ_LOW", Value: 1, Explicit: true}, {Name: "ZQ_MID", Value: 5, Explicit: true}, {Name: "ZQ_HIGH", Value: 9, Explicit: true}}}},
 		{Struct: &idl.Struct{Kind: idl.KindStruct, Name: "ZqKindStruct", Fields: fields()}},
 		{Struct: &idl.Struct{Kind: idl.KindUnion, Name: "ZqKindUnion", Fields: []*idl.Field{{ID: 1, Name: "zqCode", Type: idl.T("i32")}, {ID: 2, Name: "zqNote", Type: idl.T("string")}}}},
 		{Struct: &idl.Struct{Kind: idl.KindException, Name: "ZqKindError", Fields: fields()}},
@@ -224,6 +226,8 @@ func transitiveOp(e *edit) bool {
 		return strings.Contains(e.Site, "service Zq")
 	case "drop-include":
 		return true
+	case "renumber-enum-value", "remove-enum-value", "rename-enum-variant", "add-enum-value-end":
+		return strings.Contains(e.Site, "enum Zq")
 	case "toggle-empty-throws", "add-first-exception-to-void", "remove-all-exceptions-of-void", "add-exception-end":
 		return strings.Contains(e.Site, "service Zq")
 	case "change-kind", "change-const-type":
